@@ -149,7 +149,11 @@ def plainPre : List Char → Bool
 /-- no build metadata, plain pre-release -/
 def plainVersion (v : Version) : Bool := v.build == [] && plainPre v.pre
 
-def plainPkg (p : Pkg) : Bool :=
-  plainName p.name && (match p.version with | none => true | some v => plainVersion v)
+/-- a package's version, if any, is plain -/
+def plainVersionOpt : Option Version → Bool
+  | none => true
+  | some v => plainVersion v
+
+def plainPkg (p : Pkg) : Bool := plainName p.name && plainVersionOpt p.version
 
 end Witverif.Text.PkgSpec
